@@ -1,4 +1,4 @@
 SPECIFICATION Spec
-CONSTANT Ms = {100, 200, 1188, 1440, 1450, 1460, 8000}
+CONSTANT Ms = {100, 200, 576, 1188, 1440, 1450, 1460}
 INVARIANT EmitCases
 CHECK_DEADLOCK FALSE
